@@ -3,6 +3,7 @@ package main
 import (
 	"errors"
 	"fmt"
+	"strings"
 	"time"
 
 	"github.com/c4pt0r/kvql"
@@ -49,6 +50,17 @@ var faultqStatements = []string{
 	"put ('n1', 'v1'), ('n2', upper(key)), ('k01', 'new')",
 	"remove 'k01'",
 	"remove 'k01', 'k02', 'zz'",
+}
+
+// statements with hundreds of operands: whatever chunking the library applies to its writes, the first failing
+// storage call ends the statement
+func init() {
+	var ps, ks []string
+	for i := 0; i < 300; i++ {
+		ps = append(ps, fmt.Sprintf("('p%03d', 'v%d')", i, i%7))
+		ks = append(ks, fmt.Sprintf("'k%02d'", i%60))
+	}
+	faultqStatements = append(faultqStatements, "put "+strings.Join(ps, ", "), "put "+strings.Join(ps[:257], ", "), "remove "+strings.Join(ks, ", "))
 }
 
 func faultqStore(size int) []KV {
